@@ -58,6 +58,14 @@ class Inconclusive(Exception):
 def go_build(pkg_dir, out, flavor, cwd):
     """flavor: 'plain' (checkptr instrumentation), 'race', 'asan', 'none'"""
     cmd = ["go", "build", "-tags", "verif", "-trimpath", "-o", out]
+    if REPO != "/repo" and os.path.abspath(cwd) == os.path.abspath(HARNESS):
+        # experiments against a scratch copy of the repository (VERIF_REPO): same harness module, other replace target
+        alt = os.path.join(VERIF, ".work", "altmod-" + hashlib.sha1(REPO.encode()).hexdigest()[:8])
+        os.makedirs(alt, exist_ok=True)
+        mod = open(os.path.join(HARNESS, "go.mod")).read().replace("=> /repo", "=> " + REPO)
+        open(os.path.join(alt, "go.mod"), "w").write(mod)
+        shutil.copy(os.path.join(HARNESS, "go.sum"), os.path.join(alt, "go.sum"))
+        cmd.append("-modfile=" + os.path.join(alt, "go.mod"))
     if flavor == "race":
         cmd.append("-race")
     elif flavor == "asan":
@@ -280,10 +288,14 @@ def finish(prop, spec, tier, seed, merged, t0, extra_cov=None, extra_assume=None
         "wall_s": round(time.time() - t0, 2),
         "violations": len(unlisted),
     }
-    os.makedirs(os.path.join(VERIF, "evidence"), exist_ok=True)
-    tmp = os.path.join(VERIF, "evidence", prop + ".json.tmp")
+    evdir = os.path.join(VERIF, "evidence")
+    if os.environ.get("VERIF_NO_EVIDENCE"):
+        # experiments on deliberately broken trees (tools/try_seed.sh) must not overwrite the evidence of the real tree
+        evdir = os.path.join(VERIF, ".work", "evidence-experiments")
+    os.makedirs(evdir, exist_ok=True)
+    tmp = os.path.join(evdir, prop + ".json.tmp")
     json.dump(ev, open(tmp, "w"), indent=1, sort_keys=False)
-    os.replace(tmp, os.path.join(VERIF, "evidence", prop + ".json"))
+    os.replace(tmp, os.path.join(evdir, prop + ".json"))
     for key, v in reproduced.items():
         print("KNOWN-FINDING: property=%s %s" % (prop, v["what"]))
     code = 0
